@@ -183,7 +183,7 @@ Lemma decodeNumber_loop_spec : forall fuel st s k c W' rest,
   let m := S (num_run rest) in
   let R := c :: rest in
   exists res st', decodeNumber_loop fuel (S s + k) st = (res, st') /\
-    scanned st' = scanned st /\ pcap st' = pcap st /\ rfin (rd st') = rfin (rd st) /\
+    scanned st' + scanp st' = scanned st + scanp st /\ pcap st' = pcap st /\ rfin (rd st') = rfin (rd st) /\
     ((m < length R /\ res = NBreak (s + m) /\ Inv st' /\ s + m < length (buf st') /\
       skipn s (buf st') ++ rd_bytes (rd st') = R) \/
      (m = length R /\
@@ -239,7 +239,7 @@ Proof.
       split; auto. split; auto. unfold m, R. rewrite M, H0. simpl. rewrite HR, H0, app_nil_r. lia. }
     assert (LOOP : (e = None \/ data <> []) ->
       exists res st', decodeNumber_loop f (S s + num_run W') st2 = (res, st') /\
-        scanned st' = scanned st /\ pcap st' = pcap st /\ rfin (rd st') = rfin (rd st) /\
+        scanned st' + scanp st' = scanned st + scanp st /\ pcap st' = pcap st /\ rfin (rd st') = rfin (rd st) /\
         ((m < length R /\ res = NBreak (s + m) /\ Inv st' /\ s + m < length (buf st') /\
           skipn s (buf st') ++ rd_bytes (rd st') = R) \/
          (m = length R /\
@@ -279,7 +279,7 @@ Proof.
            split. { rewrite RB in DN. apply app_eq_nil in DN. tauto. }
            unfold m. rewrite M, DN. simpl. lia.
         -- exists NErr, (setErr (DIo (ErrR k')) st2). split; [reflexivity|].
-           simpl. split; [reflexivity|]. split; [reflexivity|]. split; [exact RF|].
+           simpl. split; [lia|]. split; [reflexivity|]. split; [exact RF|].
            right. split; [exact MR|]. split; reflexivity.
       * destruct e'; apply LOOP; right; discriminate.
     + destruct data as [|d0 data']; apply LOOP; left; reflexivity.
@@ -640,13 +640,13 @@ Qed.
 
 Hypothesis inner_pos : forall w v, inner w = Some v -> 1 <= length v.
 
-Lemma decodeNumber_loop_scanned : forall fuel i st r st',
-  decodeNumber_loop fuel i st = (r, st') -> scanned st' = scanned st.
+Lemma decodeNumber_loop_scanned : forall fuel i st j st',
+  decodeNumber_loop fuel i st = (NBreak j, st') -> scanned st' = scanned st.
 Proof.
-  induction fuel as [|f IH]; intros i st r st' H; simpl in H; [inversion H; reflexivity|].
+  induction fuel as [|f IH]; intros i st j st' H; simpl in H; [discriminate|].
   destruct (_ <? _) in H; [inversion H; reflexivity|].
   destruct (rd_read _ _) as [[data e] r'] in H.
-  destruct e as [[|k]|]; destruct data; try (apply IH in H; simpl in H; exact H); inversion H; reflexivity.
+  destruct e as [[|k]|]; destruct data; try (apply IH in H; simpl in H; exact H); try discriminate; inversion H; reflexivity.
 Qed.
 
 Lemma decodeNumber_progress : forall s st v st',
@@ -739,5 +739,112 @@ Qed.
 
 Theorem decode_error_sticky : forall st e, err st = Some e -> Decode skip inner st = (RErr e, st).
 Proof. intros st e H. unfold Decode. rewrite H. reflexivity. Qed.
+
+(* ---- Buffered() is total: scanp never exceeds the length of the buffer, in any state reached from a fresh decoder
+   by Decode / More, for every reader, framing routine and inner decoder *)
+Definition BInv (st : sd) : Prop := scanp st <= length (buf st).
+
+Lemma first_ns_index : forall l i j c rest, first_ns l i = Some (j, c, rest) -> j < i + length l.
+Proof.
+  induction l as [|a l IH]; intros i j c rest H; simpl in H; [discriminate|].
+  destruct (is_space a).
+  - apply IH in H. simpl. lia.
+  - inversion H; subst. simpl. lia.
+Qed.
+
+Lemma scan_binv : forall st c st1, BInv st -> scan st = (c, st1) -> BInv st1.
+Proof.
+  intros st c st1 B H. unfold scan in H.
+  destruct (first_ns (skipn (scanp st) (buf st)) 0) as [[[i c'] tl]|] eqn:F; inversion H; subst; auto.
+  apply first_ns_index in F. rewrite skipn_length in F. unfold BInv in *. simpl. lia.
+Qed.
+
+Lemma setErr_binv : forall e st, BInv (setErr e st).
+Proof. intros. unfold BInv. simpl. lia. Qed.
+
+Lemma refill_binv : forall st e st', BInv st -> refill st = (e, st') -> BInv st'.
+Proof.
+  intros st e st' B H. unfold refill in H.
+  destruct (rd_read _ _) as [[data e2] r'] in H. inversion H; subst. unfold BInv in *. simpl.
+  destruct (0 <? scanp st); simpl; rewrite app_length; lia.
+Qed.
+
+Lemma peek_binv : forall fuel e0 st r st', BInv st -> peek fuel e0 st = (r, st') -> BInv st'.
+Proof.
+  induction fuel; intros e0 st r st' B H; simpl in H; [inversion H; subst; auto|].
+  destruct (scan st) as [[c|] st1] eqn:S.
+  - inversion H; subst. eapply scan_binv; eauto.
+  - pose proof (scan_binv _ _ _ B S) as B1. destruct e0.
+    + inversion H; subst. apply setErr_binv.
+    + destruct (refill st1) as [e st2] eqn:R. eapply IHfuel; [|exact H]. eapply refill_binv; eauto.
+Qed.
+
+Lemma readMore_loop_binv : forall fuel st r st', readMore_loop fuel st = (r, st') -> BInv st -> BInv st'.
+Proof.
+  induction fuel; intros st r st' H B; simpl in H; [inversion H; subst; auto|].
+  destruct (rd_read _ _) as [[data e] r'] in H.
+  destruct (scan _) as [[c|] st3] eqn:S in H.
+  - inversion H; subst. eapply scan_binv; [|exact S]. unfold BInv. simpl. rewrite app_length. lia.
+  - assert (B3 : BInv st3). { eapply scan_binv; [|exact S]. unfold BInv. simpl. rewrite app_length. lia. }
+    destruct e; [inversion H; subst; apply setErr_binv|]. eapply IHfuel; eauto.
+Qed.
+
+Lemma readMore_binv : forall st r st', readMore st = (r, st') -> BInv st -> BInv st'.
+Proof.
+  intros st r st' H B. unfold readMore in H. destruct (err st); [inversion H; subst; auto|].
+  eapply readMore_loop_binv; eauto.
+Qed.
+
+Lemma consume_binv : forall st, BInv (consume st).
+Proof. intros st. unfold consume. destruct (scan st) as [c st1]. unfold BInv. simpl. lia. Qed.
+
+Lemma try_skip_binv : forall fuel s st r st', try_skip skip inner fuel s st = (r, st') -> BInv st -> BInv st'.
+Proof.
+  induction fuel; intros s st r st' H B; simpl in H; [inversion H; subst; auto|].
+  destruct (skip _) as [y x| |].
+  - destruct (_ <? _); [inversion H; subst; auto|].
+    destruct (inner _); inversion H; subst; [apply consume_binv|apply setErr_binv].
+  - destruct (readMore st) as [[[|]|] st1] eqn:RM; pose proof (readMore_binv _ _ _ RM B) as B1.
+    + eapply IHfuel; eauto.
+    + destruct (err st1) as [[[|k]| |]|]; inversion H; subst; auto.
+    + inversion H; subst; auto.
+  - inversion H; subst. apply setErr_binv.
+Qed.
+
+Lemma decodeNumber_loop_binv : forall fuel i st r st', decodeNumber_loop fuel i st = (r, st') -> BInv st -> BInv st'.
+Proof.
+  induction fuel; intros i st r st' H B; simpl in H; [inversion H; subst; auto|].
+  destruct (_ <? _) in H; [inversion H; subst; auto|].
+  destruct (rd_read _ _) as [[data e] r'] in H.
+  assert (B2 : forall d, BInv (set_rd (set_buf (realloc st) (buf (realloc st) ++ d) (cap (realloc st))) r')).
+  { intros d. unfold BInv in *. simpl. rewrite app_length. lia. }
+  destruct e as [[|k]|]; destruct data; try (eapply IHfuel; [exact H|apply B2]); inversion H; subst;
+    first [apply setErr_binv|apply B2].
+Qed.
+
+Theorem decode_binv : forall st, BInv st -> BInv (snd (Decode skip inner st)).
+Proof.
+  intros st B. unfold Decode. destruct (err st); [exact B|].
+  destruct (peek (S (rd_fuel (rd st))) None st) as [[c|e|] st1] eqn:PK; pose proof (peek_binv _ _ _ _ _ B PK) as B1.
+  - destruct (N.eqb c 45 || is_digit c)%bool.
+    + unfold decodeNumber.
+      destruct (decodeNumber_loop (S (rd_fuel (rd st1))) (S (scanp st1)) st1) as [[i| |] st2] eqn:DL;
+        pose proof (decodeNumber_loop_binv _ _ _ _ _ DL B1) as B2.
+      * destruct (inner _); simpl; [apply consume_binv|apply setErr_binv].
+      * simpl. exact B2.
+      * simpl. exact B2.
+    + destruct (try_skip skip inner (S (rd_fuel (rd st1))) (scanp st1) st1) as [r st2] eqn:TS. simpl.
+      eapply try_skip_binv; eauto.
+  - simpl. exact B1.
+  - simpl. exact B1.
+Qed.
+
+Theorem more_binv : forall st, BInv st -> BInv (snd (More st)).
+Proof.
+  intros st B. unfold More. destruct (err st); [exact B|].
+  destruct (peek (S (rd_fuel (rd st))) None st) as [[c|e|] st1] eqn:PK; pose proof (peek_binv _ _ _ _ _ B PK) as B1;
+    simpl; try exact B1.
+  all: try (destruct (_ || _)%bool; exact B1).
+Qed.
 
 End WithSkip.
